@@ -101,3 +101,10 @@ Proof. reflexivity. Qed.
 Lemma controller_entry_points_ok : controller_entry_points =
   ["AddOperator"; "AddWaitingOperator"; "Ctx"; "Dispatch"; "ExceedStoreLimit"; "GetCluster"; "GetFastOpInfluence"; "GetHistory"; "GetLeaderSchedulePolicy"; "GetOpInfluence"; "GetOperator"; "GetOperatorStatus"; "GetOperators"; "GetWaitingOperators"; "OperatorCount"; "PromoteWaitingOperator"; "PruneHistory"; "PushOperators"; "RemoveOperator"; "SendScheduleCommand"; "SetOperator"].
 Proof. reflexivity. Qed.
+
+(* the gRPC layer above the controller: Server.RegionHeartbeat drops a heartbeat before RaftCluster.HandleRegionHeartbeat
+   (cache update + Dispatch: the stale test) only when it is forwarded to another member, names no leader, no region id or no
+   peers, or when processing it failed - never because of its report interval or flow fields *)
+Lemma heartbeat_skip_conditions_ok : heartbeat_skip_conditions =
+  ["!s.isLocalRequest(forwardedHost)"; "region.GetLeader() == nil"; "region.GetID() == 0"; "len(region.GetPeers()) == 0"; "err != nil"].
+Proof. reflexivity. Qed.
